@@ -38,6 +38,12 @@ NEEDS = {
  "c20-repeated-line-fast-path-keyed-on-normalised": "predict (normalising mode): two consecutive lines that differ as raw strings but are equal after normalisation",
  "c20-evaluate-skips-predict-for-single-char": "evaluate --metric word --predict-tags with a one-character reference line",
  "c20-predict-wsconst-merged-mask": "predict with two different --wsconst character types and a boundary between characters of the two types",
+ "c05-update_raw-fast-path-on-identical-slice": "the sentence borrows its text (&str), tags are set (fill_tags / reset_tags(n>0)), then update_raw is called with the very same slice (same address and length)",
+ "c08-grow-only-pma-states-deserialized-predictor": "a tagging predictor restored with deserialize_from_slice_unchecked, on a sentence object that processed a longer text before",
+ "c07-tag-equal-to-token-backreference-reader-path": "a tag model with a tag candidate equal to its token, loaded through Model::read (reader path)",
+ "c17-dump_items-ignores-is_branch-again": "a KyTea trie in which a non-entry state carries suffix outputs (real Aho-Corasick output lists)",
+ "c20-wsconst-filters-run-on-unnormalised-sentence": "predict (normalising mode) with --wsconst T or O and a dash look-alike (U+FF0D, U+2015, U+2500, U+2013) next to a katakana / other character where the model predicts a boundary",
+ "c20-evaluate-needs_normalization-misses-u2500": "evaluate without --no-norm: a reference line containing U+2500 and no ASCII, U+20xx or U+FFxx character",
  "c20-line-cache-stale-index-after-4096": "one predict process: a line, then more than 4096 distinct lines, then the first line again",
 }
 res = {}
